@@ -303,7 +303,8 @@ PROPS = {
         "rule": "identity histories of 1..5 versions built with the real API (NewIdentityFull, Mutate) at chosen non-decreasing logical times "
                 "(equal times included) with key sets drawn from 4 real OpenPGP keys; for every logical time 1..max+2 a commit by that author "
                 "unsigned, signed by each of the 4 keys and by a stranger's key, read with bug.Read on the mock and go-git back ends with the "
-                "identity resolved from the repository; compared: ValidKeysAtTime at every time and the verdict per commit; "
+                "identity resolved from the repository; the same with the commit under test as a second commit on a root and as the merge commit of "
+                "two branches (the other commits signed as the rule asks); compared: ValidKeysAtTime at every time and the verdict per commit; "
                 "non-trivial/distinct = distinct key histories",
         "trusted_base": [KERNEL, TIE, "model: GitBugModel.Identity (validKeysAt, checkCommit) for Identity.ValidKeysAtTime and the signature check of readOperationPack", "OpenPGP (go-crypto) is trusted"],
         "assumptions": ["identity times for the clock never decrease (enforced by Identity.Validate; proved rejected otherwise in C09)"],
